@@ -180,10 +180,29 @@ theorem sat_classifyF :
     by_cases hroot : p = rootP
     · subst hroot
       simp only [if_true]
-      apply (sat_classifyF rest pl w hg hkeys').mono
+      apply Sat.bind
+      apply (sat_ensureRoot (S := S) hg i).mono
+      intro w1 r1 ⟨hs1, f, hr1, _⟩
+      have hg1 : S.G w1.fs := hs1.fs ▸ hg
+      subst hr1
+      simp only
+      cases f
+      case true =>
+        simp only [if_true]
+        apply (sat_classifyF rest _ w1 hg1 hkeys').mono
+        intro w2 r2 ⟨hs2, pl', hr2, hc⟩
+        refine ⟨hs1.trans hs2, pl', hr2, fun hfl => ?_⟩
+        have := (hc hfl).failed
+        rw [hfl] at this
+        cases this
+      simp only [Bool.false_eq_true, if_false]
+      apply (sat_classifyF rest pl w1 hg1 hkeys').mono
       intro w2 r2 ⟨hs2, pl', hr2, hc⟩
-      refine ⟨hs2, pl', hr2, fun hfl => ?_⟩
+      refine ⟨hs1.trans hs2, pl', hr2, fun hfl => ?_⟩
       have hc := hc hfl
+      have hc : Classified S w rest pl pl' := by
+        refine ⟨hc.failed, ?_, hc.dirs, hc.files, hc.links⟩
+        intro q; rw [hc.removeBase q, hs1.fs]
       refine ⟨hc.failed, ?_, ?_, ?_, ?_⟩
       · intro q; rw [hc.removeBase q]; simp
       · intro q; rw [hc.dirs q]
